@@ -323,4 +323,93 @@ example (w : World) : (runXOpts w [.base (.withEnv (strs ["COMPOSE_PROFILES=dev"
     = some (some (strs ["dev"])) := rfl
 example : implicitName "cli".toList "default".toList = "cli_default".toList := by decide
 
+
+namespace CV.Name
+open CV CV.Name.Spec
+
+/-! ## which orders matter
+
+`env_any_option_order` (Props/C17.lean) gives the environment of *any* sequence.  The orders that do **not**
+matter, as equalities of the whole option state; the ones that do are in `Neg/C17.lean`
+(`WithDotEnv` before `WithOsEnv`; `WithEnv` after `WithDotEnv`) and in the call-time examples above. -/
+
+/-- `WithEnv` and `WithOsEnv` commute: explicit variables win over OS variables whichever is called first -/
+theorem withEnv_withOsEnv_commute (w : World) (l : List Str) (o : PO) :
+    runOpts w [.withEnv l, .withOsEnv] o = runOpts w [.withOsEnv, .withEnv l] o := by
+  simp only [runOpts, applyOpt, List.append_assoc]
+
+/-- two `WithEnv` calls are one call with the later list in front (the later binding wins) -/
+theorem withEnv_twice (w : World) (l1 l2 : List Str) (o o' : PO) (h : runOpts w [.withEnv l1, .withEnv l2] o = .ok o') :
+    o'.env = asEqualsMap l2 ++ asEqualsMap l1 ++ o.env ∧ o'.name = o.name ∧ o'.envFiles = o.envFiles ∧
+      o'.workDir = o.workDir ∧ o'.configs = o.configs := by
+  simp only [runOpts, applyOpt] at h
+  cases h
+  simp only [List.append_assoc, and_self]
+
+/-- `WithOsEnv` is idempotent on what a lookup sees -/
+theorem withOsEnv_twice (w : World) (o o1 o2 : PO) (h1 : runOpts w [.withOsEnv] o = .ok o1)
+    (h2 : runOpts w [.withOsEnv, .withOsEnv] o = .ok o2) (k : Str) : o2.env.get k = o1.env.get k := by
+  simp only [runOpts, applyOpt] at h1 h2
+  cases h1; cases h2
+  simp only [get_append]
+  cases o.env.get k <;> cases (asEqualsMap w.os).get k <;> rfl
+
+/-- no option reads `Name`: the state an option leaves, up to the name -/
+theorem applyOpt_name_frame (w : World) (o : PO) (n : Str) (x : Opt) (hx : ∀ m, x ≠ .withName m) :
+    applyOpt w { o with name := n } x = match applyOpt w o x with
+      | .ok o1 => .ok { o1 with name := n }
+      | .error e => .error e := by
+  cases x with
+  | withName m => exact absurd rfl (hx m)
+  | withEnv l => rfl
+  | withOsEnv => rfl
+  | withEnvFiles fs =>
+    simp only [applyOpt, withEnvFiles]
+    cases fs with
+    | cons f fs => rfl
+    | nil =>
+      simp only
+      have hd : defaultEnvFile w { o with name := n } = { defaultEnvFile w o with name := n } := by
+        simp only [defaultEnvFile, projDirId]
+        split <;> rfl
+      cases (asEqualsMap w.os).get disableKey with
+      | none => simp only [hd]
+      | some v =>
+        simp only
+        cases parseBool v with
+        | none => rfl
+        | some b => cases b <;> simp only [hd]
+  | withDotEnv =>
+    simp only [applyOpt]
+    cases getEnvFromFile w o.env o.envFiles [] <;> rfl
+  | withWorkDir d => cases d <;> rfl
+  | withConfigFileEnv =>
+    obtain ⟨nm, env, efs, wd, cfgs⟩ := o
+    simp only [applyOpt, withConfigFileEnv]
+    cases cfgs with
+    | cons c cs => rfl
+    | nil =>
+      simp only
+      cases env.get composeFileKey with
+      | none => rfl
+      | some f =>
+        simp only
+        cases resolvePaths w _ <;> rfl
+  | withDefaultConfigPath =>
+    obtain ⟨nm, env, efs, wd, cfgs⟩ := o
+    simp only [applyOpt, withDefaultConfigPath]
+    cases cfgs with
+    | cons c cs => rfl
+    | nil => rfl
+
+/-- **the position of `WithName` never matters**: a valid `WithName(n)` commutes with every other option (equal
+    states, equal errors) — the explicit name wins wherever it stands among the options -/
+theorem withName_commutes (w : World) (n : Str) (hn : normalize n = n) (x : Opt) (hx : ∀ m, x ≠ .withName m) (o : PO) :
+    runOpts w [.withName n, x] o = runOpts w [x, .withName n] o := by
+  have hN : ∀ p : PO, applyOpt w p (.withName n) = .ok { p with name := n } := by
+    intro p; simp only [applyOpt, hn, if_true]
+  simp only [runOpts, hN]
+  rw [applyOpt_name_frame w o n x hx]
+  cases applyOpt w o x <;> rfl
+
 end CV.Name
